@@ -371,6 +371,20 @@ def table_case(run, seed, idx, mods, big=False):
             res[use_scipy] = np.asarray(gl).copy()
         if not np.array_equal(canon(res[False]), canon(res[True])):
             V("find_uniq:numba-vs-scipy", "numba and scipy routes give different partitions")
+        # history on one table: the pair list is edited in place (weak overlaps dropped = turned into self loops) and the
+        # table is labelled again - the labels must be the components of the graph as it is now; then put back
+        if len(ei):
+            rc_save = np.array(tab.rc, copy=True)
+            kill = r2.random(len(ei)) < 0.5
+            tab.rc[1][kill] = tab.rc[0][kill]
+            nc2, lab2 = ref_components(np.asarray(tab.rc[0]), np.asarray(tab.rc[1]), N)
+            with contextlib.redirect_stdout(io.StringIO()):
+                nl2, gl2 = tab.find_uniq(use_scipy=bool(r2.integers(2)))
+            run.count("find_uniq_after_graph_edit")
+            if nl2 != nc2 or not np.array_equal(canon(gl2), canon(lab2)):
+                V("find_uniq:after-graph-edit", "after %d of %d pairs were removed from the pair list in place, find_uniq gives %d "
+                  "merged peaks, the graph now has %d components" % (int(kill.sum()), len(ei), nl2, nc2))
+            tab.rc[:] = rc_save
         # merging on the labels of either route (the scipy route leaves int32 labels), at 1 thread and two other counts
         avail = [t for t in THREADS if t <= numba.config.NUMBA_NUM_THREADS and t > 1]
         tlist = [1] + [int(t) for t in r2.choice(avail, size=min(2, len(avail)), replace=False)] if avail else [1]
@@ -493,6 +507,7 @@ def check(run, replay=None):
     run.require_counter("labelling_runs", 500)
     run.require_counter("merged_peaks_checked", 200)
     run.require_counter("tables_without_pairs", 2)
+    run.require_counter("find_uniq_after_graph_edit", 20)
     run.require_counter("tables_with_per_count_scale", 5)
     for nt in THREADS:
         # a thread count that could not be set (NUMBA_NUM_THREADS too small) leaves the schedule quantifier unexplored
